@@ -217,16 +217,13 @@ func ReportIQ(ctx context.Context, iq stanza.IQ, s *xmpp.Session, i ...Item) err
 	for _, item := range i {
 		items = append(items, item.TokenReader())
 	}
-	r, err := s.SendIQ(ctx, iq.Wrap(xmlstream.Wrap(
+	// Error replies are returned as a stanza.Error.
+	return s.UnmarshalIQ(ctx, iq.Wrap(xmlstream.Wrap(
 		xmlstream.MultiReader(items...),
 		xml.StartElement{
 			Name: xml.Name{Space: NS, Local: "block"},
 		},
-	)))
-	if err != nil {
-		return err
-	}
-	return r.Close()
+	)), nil)
 }
 
 // Add adds JIDs to the blocklist.
@@ -263,14 +260,11 @@ func doIQ(ctx context.Context, local string, iq stanza.IQ, s *xmpp.Session, j ..
 			Attr: []xml.Attr{{Name: xml.Name{Local: "jid"}, Value: jj.String()}},
 		}))
 	}
-	r, err := s.SendIQ(ctx, iq.Wrap(xmlstream.Wrap(
+	// Error replies are returned as a stanza.Error.
+	return s.UnmarshalIQ(ctx, iq.Wrap(xmlstream.Wrap(
 		xmlstream.MultiReader(jids...),
 		xml.StartElement{
 			Name: xml.Name{Space: NS, Local: local},
 		},
-	)))
-	if err != nil {
-		return err
-	}
-	return r.Close()
+	)), nil)
 }
